@@ -6,6 +6,9 @@ def lookup(prop):
     if prop == "C18":
         from harness import check_c18b
         checks_core.EXTRAS["C18"] = check_c18b.run_signum
+    if prop == "C15":
+        from harness import check_c15reload
+        checks_core.EXTRAS["C15"] = check_c15reload.run_reload_dir
     if prop == "C13":
         from harness import check_c13a
         checks_core.EXTRAS["C13"] = check_c13a.run_cmdline
@@ -33,6 +36,12 @@ def lookup(prop):
     if prop == "C16":
         from harness import check_c16
         return check_c16.run
+    if prop == "C12":
+        from harness import check_c12
+        return check_c12.run
+    if prop == "C17":
+        from harness import check_c17
+        return check_c17.run
     if prop == "C20":
         from harness import check_c20
         return check_c20.run
